@@ -69,7 +69,7 @@ def acceptedRaise (j : Journal) : Bool :=
    !j.any (fun e => match e.call with | .terminateInstances _ => true | _ => false) &&
    ((j.filter Spec.isAttachEntry).getLast?.map (·.ok)) == some true)
 
-def monitorsWant (c : Spec.Ctx) (obsDelta : Int) (j : Journal) (fatalHere : Bool) (stillTainted : List String := []) : List String :=
+def monitorsWant (c : Spec.Ctx) (obsDelta : Int) (j : Journal) (fatalHere : Bool) (stillTainted : List String := []) (dupTainted : List String := []) : List String :=
   let unt : Int := Spec.untaintedCount c
   let want : Int := if unt < c.st.minEff then c.st.minEff - unt else obsDelta
   (if fatalHere then [] else (Spec.decisionBad c obsDelta).flatMap (fun t => ["C06|" ++ t, "C13|" ++ t] ++
@@ -91,11 +91,17 @@ def monitorsWant (c : Spec.Ctx) (obsDelta : Int) (j : Journal) (fatalHere : Bool
     ["C01|" ++ t ++ " (no taint, grace period or drain condition is consulted)", "C19|" ++ t ++ " (not the instances of the given nodes)"] ++
     (if c.view.nodes.any Spec.protectedNode then ["C10|" ++ t ++ ", the nodes protected by the no-delete annotation included"] else []) ++
     (if c.view.nodes.any (·.unschedulable) then ["C09|" ++ t ++ ", cordoned nodes included"] else []))) ++
-  (if fatalHere then [] else (Spec.C07.shortfall c want j stillTainted).flatMap (fun t => ["C07|remainder-not-requested: " ++ t, "C05|brought-too-few: " ++ t] ++
-    (if unt < c.st.minEff then ["C03|below min_nodes and no cool-down running, but capacity is not restored: " ++ t]
+  (if fatalHere then [] else (Spec.C07.shortfall c want j stillTainted dupTainted).flatMap (fun t => ["C07|remainder-not-requested: " ++ t, "C05|brought-too-few: " ++ t] ++
+    (if unt < c.st.minEff then ["C03|below min_nodes and no cool-down running, but capacity is not restored: " ++ t] ++
+       -- a cool-down was started earlier and has run out (the lock flag is still set, its time has passed): "once the
+       -- period has elapsed the group is acted on again"
+       (if c.st.lock.isLocked then ["C02|the cool-down has elapsed, yet the group is not acted on again (below min_nodes, nothing restored): " ++ t] else [])
      else ["C06|the decision is to add " ++ toString want ++ " node(s), but capacity is not added: " ++ t]))) ++
   (if fatalHere then [] else (Spec.C06.bad c j ++ Spec.C06.badStarve c obsDelta j ++ Spec.C06.badMaxAge c obsDelta j).map (fun t => "C06|" ++ t)) ++
-  (if fatalHere then [] else (Spec.C05.badScaleUp c obsDelta).map (fun t => "C05|" ++ t))
+  (if fatalHere then [] else (Spec.C05.badScaleUp c obsDelta).flatMap (fun t => ["C05|" ++ t] ++
+    -- the size is computed from the untainted, uncordoned nodes only: with a cordoned node in view a wrong size also
+    -- speaks against "a cordoned node is never counted"
+    (if c.view.nodes.any (·.unschedulable) then ["C09|cordoned-node-in-view:" ++ t] else [])))
 
 def monitors (c : Spec.Ctx) (j : Journal) (fatalHere : Bool) : List String :=
   ((Spec.C19.scanBad c j fatalHere).map (fun t => "C19|" ++ t)) ++
@@ -219,7 +225,10 @@ def handleScan (ds : DState) (sc : ScanCase) : DState × Json :=
             -- dry one, that decides to add capacity and then writes nothing, or that keeps the book dry mode keeps instead of
             -- tainting, is being run as if it were dry
             let liveNextToDry := !ctx.dry && ds.ctl.cfgs.any (fun c' => c'.name != ob.name && c'.dryMode)
-            let mw := monitorsWant ctx ob.delta ob.j (fatalHere || gone) stillTainted
+            let dupTainted : List String := (paired.filter (fun t => t.1 == ob.name)).filterMap (fun t => match t.2.1.call, t.2.2 with
+              | .getNode _, .node nd => if t.2.1.ok && (nd.taints.filter (fun x => x.key == escKey)).length ≥ 2 then some nd.name else none
+              | _, _ => none)
+            let mw := monitorsWant ctx ob.delta ob.j (fatalHere || gone) stillTainted dupTainted
             let m11 := if !liveNextToDry then [] else
               (mw.filter (fun m => m.startsWith "C07|remainder-not-requested")).map (fun m => "C11|a live group configured next to a dry one acts as if it were dry: " ++ (m.drop 4).toString) ++
               (match sc.obs.states.find? (fun s => s.name == ob.name) with
